@@ -92,6 +92,10 @@ TABLE = [
     ('#FOREACH(a,b,c)(s,[s],/)', '[a]/[b]/[c]', None, {}),
     ('#FOREACH(1,2,3)(n,n,+,=)', '1+2=3', None, {}),
     ('#FOREACH(x)(v,<v>)', '<x>', '&lt;x&gt;', {}),
+    ('#FOR1,2(n,n, & )', '1 & 2', '1 &amp; 2', {}),
+    ('#FOREACH(1,2)(n,n, & )', '1 & 2', '1 &amp; 2', {}),
+    ('#FOR1,3(n,n, < , > )', '1 < 2 > 3', '1 &lt; 2 &gt; 3', {}),
+    ('#FOREACH(a&b,c)(v,[v])', '[a&b][c]', '[a&amp;b][c]', {}),
     ('#IF(1<2)(yes,no)', 'yes', None, {}),
     ('#IF(0)(yes,no)', 'no', None, {}),
     ('#IF(0)(yes)', '', None, {}),
@@ -144,7 +148,7 @@ def run(ctx, repo):
             got = writer(False, opts).expand(text)
             if got != want:
                 problems.append('ASM mode gives %r, the manual defines %r' % (got, want))
-            goth = writer(True, opts).expand(text)
+            goth = writer(True, opts).expand(_html.escape(text, False) if want_html is not None and ('&' in text or '<' in text) else text)
             wh = want if want_html is None else want_html
             if goth != wh:
                 problems.append('HTML mode gives %r, expected %r' % (goth, wh))
